@@ -18,6 +18,9 @@ type CompactionWorker struct {
 	bs      store.BadgerStore
 	logger  *zap.SugaredLogger
 	running bool
+	// lockDataset takes the write lock of the given dataset and returns the function that releases it
+	lockDataset    func(datasetID string) func()
+	currentDataset string // the dataset being compacted (only one compaction runs at a time)
 }
 
 func NewCompactor(store *server.Store, dsm *server.DsManager, logger *zap.SugaredLogger) *CompactionWorker {
@@ -25,6 +28,14 @@ func NewCompactor(store *server.Store, dsm *server.DsManager, logger *zap.Sugare
 	return &CompactionWorker{
 		bs:     bs,
 		logger: logger.Named("compaction-worker"),
+		lockDataset: func(datasetID string) func() {
+			ds := dsm.GetDataset(datasetID)
+			if ds == nil {
+				return func() {}
+			}
+			ds.WriteLock.Lock()
+			return ds.WriteLock.Unlock
+		},
 	}
 }
 
@@ -45,8 +56,21 @@ func (c *CompactionWorker) CompactAsync(datasetID string, strategy CompactionStr
 	return fmt.Errorf("there is already a compaction running. try again later")
 }
 
+// flushDeletesLocked flushes while holding the write lock of the dataset that is being compacted, so that
+// no batch is written between reading the latest-version pointers in the flush and committing it
+func (c *CompactionWorker) flushDeletesLocked(ops *compactionInstruction, finalFlush bool, strategy CompactionStrategy) (bool, error) {
+	if !finalFlush && len(ops.DeleteKeys) < strategy.flushThreshold() {
+		return false, nil
+	}
+	if c.lockDataset != nil && c.currentDataset != "" {
+		defer c.lockDataset(c.currentDataset)()
+	}
+	return flushDeletes(c.bs, ops, finalFlush, strategy)
+}
+
 func (c *CompactionWorker) compact(datasetID string, strategy CompactionStrategy) error {
 	startTs := time.Now()
+	c.currentDataset = datasetID
 	strategy.SetLogger(c.logger)
 	dsId, b := c.bs.LookupDatasetID(datasetID)
 	if !b {
@@ -86,7 +110,7 @@ func (c *CompactionWorker) compact(datasetID string, strategy CompactionStrategy
 		}
 
 	}
-	_, err := flushDeletes(c.bs, ops, true, strategy)
+	_, err := c.flushDeletesLocked(ops, true, strategy)
 	if err != nil {
 		return err
 	}
@@ -119,7 +143,7 @@ func (c *CompactionWorker) forEntity(dsId types.InternalDatasetID, internalEntit
 		}
 		ops.append(instr)
 
-		reset, err4 := flushDeletes(c.bs, ops, false, strategy)
+		reset, err4 := c.flushDeletesLocked(ops, false, strategy)
 		if reset {
 			ops.reset()
 		}
@@ -180,7 +204,22 @@ func flushDeletes(bs store.BadgerStore, ops *compactionInstruction, finalFlush b
 			}
 		}
 		// fmt.Println("deleted", len(all), "keys")
+		deleted := make(map[string]bool, len(all))
+		for _, key := range all {
+			deleted[string(key)] = true
+		}
 		for i, key := range ops.RewriteKeys {
+			// a latest-version pointer is only moved back if it still points to a version that is removed now.
+			// if a batch has been written since compaction took its snapshot, it points to that newer version and must stay
+			if item, getErr := txn.Get(key); getErr == nil {
+				current, valErr := item.ValueCopy(nil)
+				if valErr != nil {
+					return valErr
+				}
+				if !deleted[string(current)] {
+					continue
+				}
+			}
 			err2 := txn.Set(key, ops.RewriteValues[i])
 			if err2 != nil {
 				return err2
